@@ -23,9 +23,15 @@ open OutEv (Script TestInfo)
 
 /-! ## translation -/
 
+/-- the C02 shell of a script at position `k`: an `IgnoredUtestShell` iff the script does not run; its own
+    run-ignored flag is off -/
+abbrev mkTest (k : Nat) (s : Script) : Registry.Test :=
+  { id := k, group := s.info.group, name := s.info.name, ignored := !s.info.willRun, flag := false,
+    file := s.info.file, line := s.info.line }
+
 def toTestsFrom : Nat → List Script → List Registry.Test
   | _, [] => []
-  | k, s :: rest => ⟨k, s.info.group, s.info.name, !s.info.willRun⟩ :: toTestsFrom (k + 1) rest
+  | k, s :: rest => mkTest k s :: toTestsFrom (k + 1) rest
 
 /-- the scripts as C02 tests: id = position in the registry's list -/
 def toTests (ss : List Script) : List Registry.Test := toTestsFrom 0 ss
@@ -56,6 +62,7 @@ def skO : OutEv.Ev → Option Sk
   | .testStarted t => some (.testStarted t)
   | .print _ => none
   | .failure _ => none
+  | .veryVerbose _ => none
   | .testEnded _ _ => some .testEnded
   | .groupEnded _ => some .groupEnded
   | .testsEnded s => some (.testsEnded s.testCount s.runCount s.ignoredCount s.filteredOutCount)
@@ -85,17 +92,22 @@ theorem postEvs_skel (t : TestInfo) : ∀ (as : List OutEv.Act), (OutEv.postEvs 
 
 theorem testEvs_skel (s : Script) (r : OutEv.R) :
     (OutEv.testEvs s r).filterMap skO = [.testStarted s.info, .testEnded] := by
+  have hinner : (OutEv.testInner s.info s.acts).filterMap skO = [] := by
+    unfold OutEv.testInner OutEv.traceBetween
+    cases OutEv.bodyExits s.acts <;>
+      simp only [OutEv.traceBefore, OutEv.traceAfter, OutEv.vv, skO, actEvs_skel, postEvs_skel, List.filterMap_append,
+        List.filterMap_cons, List.filterMap_nil, List.append_nil, List.nil_append, Bool.false_eq_true, if_false, if_true]
   unfold OutEv.testEvs
-  cases s.info.willRun <;> simp [skO, actEvs_skel, postEvs_skel, List.filterMap_append]
+  cases s.info.willRun <;> simp [skO, hinner, List.filterMap_append]
 
 theorem shouldRun_agrees (flt : Option OutEv.Filter) (s : Script) (k : Nat) :
-    Registry.shouldRun (cfgOf flt) ⟨k, s.info.group, s.info.name, !s.info.willRun⟩ = OutEv.shouldRun flt s.info := by
+    Registry.shouldRun (cfgOf flt) (mkTest k s) = OutEv.shouldRun flt s.info := by
   unfold Registry.shouldRun Gen.Registry.shouldRun OutEv.shouldRun cfgOf
   cases flt with
   | none => simp [Registry.matchFilters]
   | some f =>
     simp only [Option.map_some, Option.toList_some, Registry.matchFilters, Registry.matchLoop, Bool.true_and]
-    unfold Registry.Filter.matches Gen.Registry.filterMatch OutEv.Filter.matches toFilter
+    unfold Registry.Filter.matches Gen.Registry.filterMatch OutEv.Filter.matches toFilter mkTest
     have hb : ∀ a b : Text.Bytes, decide (a = b) = (a == b) := by
       intro a b; by_cases h : a = b <;> simp [h]
     cases f.strict <;> cases f.invert <;> simp [hb]
@@ -110,8 +122,8 @@ structure Cn (r : OutEv.R) (c : Registry.Counters) : Prop where
 theorem step_agrees (flt : Option OutEv.Filter) (inf : Nat → TestInfo) (cf : Registry.Counters) (s : Script) (k : Nat)
     (hinf : inf k = s.info) {r : OutEv.R} {c : Registry.Counters} (h : Cn r c) :
     (OutEv.bodyEvs flt s r).filterMap skO =
-        (Registry.testStep (cfgOf flt) ⟨k, s.info.group, s.info.name, !s.info.willRun⟩ c).2.filterMap (skR inf cf) ∧
-      Cn (OutEv.bodyR flt s r) (Registry.testStep (cfgOf flt) ⟨k, s.info.group, s.info.name, !s.info.willRun⟩ c).1 := by
+        (Registry.testStep (cfgOf flt) (mkTest k s) c).2.filterMap (skR inf cf) ∧
+      Cn (OutEv.bodyR flt s r) (Registry.testStep (cfgOf flt) (mkTest k s) c).1 := by
   unfold OutEv.bodyEvs OutEv.bodyR Registry.testStep
   rw [shouldRun_agrees]
   cases hs : OutEv.shouldRun flt s.info with
@@ -123,7 +135,7 @@ theorem step_agrees (flt : Option OutEv.Filter) (inf : Nat → TestInfo) (cf : R
   | true =>
     simp only [if_true, testEvs_skel]
     unfold Registry.runOneTest Registry.ignoredRunOneTest Registry.utestShellRunOneTest Gen.Registry.ignoredRuns
-      OutEv.afterTest
+      OutEv.afterTest Registry.shellFlagAtUse mkTest
     cases hw : s.info.willRun with
     | true =>
       simp only [Bool.not_true, Bool.false_eq_true, if_false, if_true, cfgOf, List.filterMap_append, List.filterMap_cons,
@@ -137,7 +149,7 @@ theorem step_agrees (flt : Option OutEv.Filter) (inf : Nat → TestInfo) (cf : R
         by show r.ignored + 1 = c.ignoredCount + 1; rw [h.ignored], h.filtered⟩
 
 theorem endOfGroup_agrees (s : Script) (rest : List Script) (k : Nat) :
-    Registry.endOfGroup ⟨k, s.info.group, s.info.name, !s.info.willRun⟩ (toTestsFrom (k + 1) rest) =
+    Registry.endOfGroup (mkTest k s) (toTestsFrom (k + 1) rest) =
       OutEv.endOfGroup s rest := by
   cases rest with
   | nil => rfl
